@@ -264,6 +264,15 @@ func (s *composeSlice) build() {
 	}
 }
 
+func (s *composeSlice) unlimitedRetry() bool {
+	for _, t := range s.polLines {
+		if t[0] == "retry" && t[1] == "-1" {
+			return true
+		}
+	}
+	return false
+}
+
 // timeOracleOn: no hedge, and no retry policy inside a Timeout
 func (s *composeSlice) timeOracleOn() bool {
 	inTimeout := false
@@ -448,7 +457,12 @@ func (s *composeSlice) run(async bool, ck string, scriptText string, x string) s
 		if ck == "''" {
 			key = ""
 		}
-		ex = ex.WithContext(context.WithValue(guardCtx, cachepolicy.CacheKey, key))
+		parent := context.Context(guardCtx)
+		if x == "" && len(scriptText)%2 == 0 && !s.unlimitedRetry() {
+			// a context that only carries values (its Done() is nil): the key must reach a cache policy inside a Timeout / hedge too
+			parent = context.Background()
+		}
+		ex = ex.WithContext(context.WithValue(parent, cachepolicy.CacheKey, key))
 	} else {
 		ex = ex.WithContext(guardCtx)
 	}
